@@ -213,6 +213,34 @@ def r17_3(prog, out):
             else:
                 lo, hi = None, None
                 w.undecided_reason = "expression over the input not recognised"
+        if lo is not None and not (tlo <= lo and hi <= thi) and b.kind == "Closure" and not b.coroutine and b.parent and proto:
+            # `(raw > 0).then(|| raw as u64)`: the closure only runs when the condition held
+            pid = prog.qual(b, b.parent)
+            pi = prog.info(pid)
+            if pi is not None:
+                for pbb, pt in pi.calls(lambda c: c.path.split("::")[-1] in ("then", "then_some") and "bool" in c.path):
+                    co = pi.trace(pt.args[1]) if len(pt.args) > 1 else None
+                    if co is None or co.kind != "agg" or prog.qual(pi.body, pi.agg_at(co.data).j.get("def", "")) != bid:
+                        continue
+                    pw = IntervalWalker(prog, pid, lambda o: bool(set(o.cells()) & set(proto)) and o.cells()[-1] in proto, frm)
+                    if pt.args[0].place is None or not pt.args[0].place.is_local():
+                        continue
+                    cond = pw._cond(pbb, pt.args[0].place.local)
+                    if cond is None:
+                        cd = pi.trace(pt.args[0])
+                        if cd.kind == "local" or cd.kind == "expr":
+                            pass
+                        # the bool may be a moved copy of the comparison
+                        ds = pi.defs.get(pt.args[0].place.local, [])
+                        if len(ds) == 1 and ds[0][1] >= 0:
+                            st0 = pi.stmt(*ds[0])
+                            if st0.rv.k == "use" and st0.rv.ops[0].place is not None and st0.rv.ops[0].place.is_local():
+                                cond = pw._cond(pbb, st0.rv.ops[0].place.local)
+                    if cond is not None:
+                        plo, phi = region_interval_at(prog, pi, pw, pbb)
+                        if plo is not None:
+                            l2, h2, _e = IntervalWalker._refine(plo, phi, frozenset(), cond[0], cond[1], True)
+                            lo, hi = max(lo, l2), min(hi, h2)
         if lo is None:
             out.undecided(key, bi.loc(bb), "value range at the cast not determined (%s)" % w.undecided_reason)
         elif tlo <= lo and hi <= thi:
